@@ -1,0 +1,11 @@
+//go:build verif
+
+package rsm
+
+// VerifC11Index returns the index of the last entry handled by the apply path
+// (StateMachine.index), for the /verif harness of property C11.
+func (s *StateMachine) VerifC11Index() uint64 {
+	s.mu.RLock()
+	defer s.mu.RUnlock()
+	return s.index
+}
